@@ -135,7 +135,7 @@ func TestC20Fee(t *testing.T) {
 				fee = fee.Add(sdk.NewCoin(d, math.NewIntFromBigInt(amt)))
 			}
 		}
-		mode := rapid.SampledFrom([]string{"check", "check", "check", "recheck", "deliver", "simulate"}).Draw(rt, "mode")
+		mode := rapid.SampledFrom([]string{"check", "check", "check", "recheck", "deliver", "simulate", "prepare-proposal", "process-proposal", "finalize"}).Draw(rt, "mode")
 		ctx := l2.Ctx.WithMinGasPrices(node)
 		switch mode {
 		case "check":
@@ -144,6 +144,12 @@ func TestC20Fee(t *testing.T) {
 			ctx = ctx.WithIsReCheckTx(true)
 		case "simulate":
 			ctx = ctx.WithExecMode(sdk.ExecModeSimulate)
+		case "prepare-proposal":
+			ctx = ctx.WithExecMode(sdk.ExecModePrepareProposal) // block building: the mempool has admitted the transaction already
+		case "process-proposal":
+			ctx = ctx.WithExecMode(sdk.ExecModeProcessProposal)
+		case "finalize":
+			ctx = ctx.WithExecMode(sdk.ExecModeFinalize)
 		}
 		checking := ctx.IsCheckTx()
 		tx := feeTx{gas: gas, fee: fee}
@@ -463,6 +469,15 @@ func TestC20Session(t *testing.T) {
 			d := tcL2Denom(tc, "uinit")
 			presetBankMetadata(rt, l2, d)
 			c.Class("session/l2-bank-metadata-preset")
+		}
+		if rapid.IntRange(0, 3).Draw(rt, "smallHookAllowance") == 0 {
+			// the chain allows hooks very little gas (less than a plain deposit costs): that bounds hooks, not deposits
+			p, _ := l2.K.GetParams(l2.Ctx)
+			p.HookMaxGas = uint64(rapid.SampledFrom([]int{1, 500, 5000}).Draw(rt, "hookMaxGas"))
+			if err := l2.K.SetParams(l2.Ctx, p); err != nil {
+				panic(err)
+			}
+			c.Class("session/small-hook-allowance")
 		}
 		n := rapid.IntRange(0, 3).Draw(rt, "processed")
 		var pend []*pendingDeposit
